@@ -84,6 +84,18 @@ CHECKS = {
     'C25': ('model-based PBT over histories: a client folds GetManagedObjects + InterfacesAdded/Removed and is compared with the model after every step',
             'Exploration over histories under one or two (disjoint) managers with a Ping barrier after every step; folded view == model objects with current property values.',
             'Trusted: same-connection ordering makes the Ping reply a barrier for the signals before it. Nested managers are not generated.', '7/C25'),
+    'C26': ('program-generating PBT: random #[interface] impls compiled against the library; a reference-built raw peer sends bursts of calls that are right or wrong in exactly one aspect; replies, errors, signals and handler invocations predicted from the generator\'s table under a harness-owned schedule',
+            'Exploration over programs and inputs: per run one generated crate of 8 interfaces (~30 methods of all shapes); per case 1-3 registrations on a 5-path tree and 1-5 calls (valid / wrong path / interface / member / arguments, with and without the no-reply flag, both endiannesses); handler ran iff everything matches, with exactly the arguments sent; exactly one reply (none with the flag) carrying the predicted value with the declared signature, the handler\'s error, or the named standard error; emitted signals as declared; nothing else written.',
+            'Trusted: generator table (Rust type -> signature / reference value), reference message builder / parser, harness scheduler. For an existing node without the interface either UnknownObject or UnknownInterface is accepted.', '7/C26'),
+    'C27': ('program-generating PBT: introspection XML of generated interfaces on random trees checked by an own strict XML parser, by zbus_xml, against the generator\'s table and against wire behaviour',
+            'Exploration over programs: per case 1-4 interfaces (+ optional ObjectManager) on a tree, one node introspected: well-formed per an independent XML 1.0 parser, read by zbus_xml, every node lists exactly its interfaces (standard ones verified by calling them) and child nodes, members declared as in the table (names, directions, types, access, annotations), and Get / method replies / emitted signals on the wire carry the declared types. Doc comments contain XML-special text.',
+            'Trusted: refmodel::xml (written from the XML recommendation, unit-tested on accept / reject examples); generator table. Single-structure returns are excluded from the reply-signature comparison as the statement says.', '7/C27'),
+    'C28': ('program-generating, model-based PBT over Get / GetAll / Set histories against generated property definitions',
+            'Exploration over programs and histories: per case one or two generated interfaces on an object and 3-10 operations from a raw peer (valid; unknown property / interface; read-only; write-only; wrongly typed; refused by the setter); a value model predicts every reply, the setter log and the PropertiesChanged signal of each step (exactly one with the new value / invalidation after a successful Set of an emitting property, none otherwise); final GetAll == model.',
+            'Trusted: generator table; a write-only property is documented (and introspected) as not emitting change signals. Which error a rejected Set carries is not demanded (the statement says "an error").', '7/C28'),
+    'C33': ('program-generating PBT: generated proxy traits against generated interfaces over harness-pumped scripted sockets (async, owned schedule) and over a socket pair with executor threads (blocking)',
+            'Exploration over programs, inputs and schedules: typed proxy calls with generated arguments; the handler log must show exactly the arguments sent, results / errors equal the prediction from the handler\'s label, emitted signals arrive on the proxy\'s stream with equal arguments, property reads equal the server\'s value and writes reach the setter (refused values error out).',
+            'Trusted: generator table and its ToR mapping; fresh proxy per operation (cache staleness is C31\'s subject). Blocking proxies run in real time: a 30 s give-up is reported as inconclusive (exit 2), never as a violation. Calls are issued only after the object server came to rest (known finding of C30).', '7/C33'),
     'C29': ('schedule-exploring PBT of call bursts against handlers that yield / wait on gates',
             'Exploration over schedules: with spawn = false the start/end log must be strictly serial in arrival order; every call gets exactly one reply.',
             'Trusted: harness scheduler (one executor task per step), gates opened only at quiescence.', '6, 7/C29'),
@@ -150,7 +162,7 @@ def main():
         },
         'engines': [
             {'name': 'engine', 'path': 'engine', 'serves_properties': sorted(CHECKS.keys()),
-             'kind_free_text': 'cargo workspace: vcore (proptest-driven byte-string case runner, independent reference models, generators), h_zvariant / h_zbus harness binaries with path dependencies on /repo'},
+             'kind_free_text': 'cargo workspace: vcore (proptest-driven byte-string case runner, independent reference models, generators), h_zvariant / h_zbus harness binaries and h_prog (programs generated by tools/gen_prog.py) with path dependencies on /repo'},
         ],
         'checks': checks,
         'not_applicable': na,
